@@ -64,7 +64,11 @@ def isObj : Val → Bool
 def St.sub (st : St) : St := { out := [], log := st.log, writes := st.writes }
 def St.back (st : St) (s1 : St) : St := { st with log := s1.log, writes := s1.writes }
 
-def zipIdx' {α : Type} (xs : List α) : List (α × Nat) := xs.zipIdx
+/-- members of a container with the segment that addresses each: sorted keys / indices -/
+def entriesSeg : Val → List (Seg × Val)
+  | .obj kvs => (sortKV kvs).map (fun kv => (Seg.key kv.1, kv.2))
+  | .arr xs => xs.zipIdx.map (fun xi => (Seg.idx xi.2, xi.1))
+  | _ => []
 
 mutual
 /-- `retrieve env chain prev root cur aloc st`: evaluate the chain on `cur`.
@@ -135,10 +139,7 @@ def retrieve (env : Env) : List N → Info → Val → Val → Option Loc → St
     | _ => .ok (st, some (typeErr i "array" cur))
   | .filter i q :: rest, _, root, cur, aloc, st =>
     if cur.isContainer then do
-      let entries : List (Seg × Val) := match cur with
-        | .obj kvs => (sortKV kvs).map (fun kv => (Seg.key kv.1, kv.2))
-        | .arr xs => xs.zipIdx.map (fun xi => (Seg.idx xi.2, xi.1))
-        | _ => []
+      let entries := entriesSeg cur
       let ms := entries.map (·.2)
       let (vl, st1) ← computeQ env q root ms st
       let isEach := vl.cells.length == ms.length
@@ -169,7 +170,7 @@ def retrieve (env : Env) : List N → Info → Val → Val → Option Loc → St
       | [] => .error .indexOutOfRange           -- values.result[0]
       | r0 :: _ =>
         let all := s1.out.map Res.val
-        let args := if chainVg param then all else (match r0.val with | .arr xs => xs | _ => all)
+        let args := aggArgs (chainVg param) r0.val all
         match env.afn name with
         | none => .error .typeAssertion
         | some f =>
@@ -211,24 +212,20 @@ def pcurLoop (env : Env) (ch : List N) (root : Val) : List Val → St → M (Lis
 def computeQ (env : Env) : Q → Val → List Val → St → M (VL × St)
   | .exist p, root, ms, st => computeP env p root ms st
   | .cmp l r c, root, ms, st => do
-    let (lv, st1) ← computeP env l root ms st
-    let (lf, lv, st2) := match cmpValidatorTy c with
-      | none => (validateAny lv.cells, lv, st1)
-      | some ty => let (f, cells, w) := validateTy ty lv.cells; (f, { lv with cells := cells }, st1.wrote lv.org w)
-    let (rv, st3) ← computeP env r root ms st2
-    let (rf, rv, st4) := match cmpValidatorTy c with
-      | none => (validateAny rv.cells, rv, st3)
-      | some ty => let (f, cells, w) := validateTy ty rv.cells; (f, { rv with cells := cells }, st3.wrote rv.org w)
-    if lf && rf then
-      match rv.cells with
+    let (lv0, st1) ← computeP env l root ms st
+    let lres := valStep c lv0 st1                   -- leftFound := comparator.validate(leftValues)
+    let (rv0, st3) ← computeP env r root ms lres.2.2
+    let rres := valStep c rv0 st3                   -- rightFound := comparator.validate(rightValues)
+    if lres.1 && rres.1 then
+      match rres.2.1.cells with
       | [] => .error .indexOutOfRange            -- rightValues[0]
       | .empty :: _ => .error .typeAssertion     -- unreachable: rightFound with a single cell
       | .val r0 :: _ => do
-        let (hit, cells, w) ← comparator env c r0 lv.cells
-        let st5 := st4.wrote lv.org w
-        if hit then .ok ({ lv with cells := cells }, st5) else .ok (emptyL, st5)
-    else if lf == rf && c == .deepEq then .ok (fullL, st4)
-    else .ok (emptyL, st4)
+        let (hit, cells, w) ← comparator env c r0 lres.2.1.cells
+        let st5 := rres.2.2.wrote lres.2.1.org w
+        if hit then .ok ({ lres.2.1 with cells := cells }, st5) else .ok (emptyL, st5)
+    else if lres.1 == rres.1 && c == .deepEq then .ok (fullL, rres.2.2)
+    else .ok (emptyL, rres.2.2)
   | .not a, root, ms, st => do
     let (cl, st1) ← computeQ env a root ms st
     if cl.cells.length == 1 then
